@@ -5,7 +5,7 @@ Masks(n) == [1..n -> {0, 1}]
 MCInit == GInit
 MCreate == \E a \in 1..2, b \in 1..2, c \in 1..2 :
              \E x \in [1..a -> Sizes], y \in [1..b -> {1, 2}], z \in [1..c -> Sizes], act \in Masks(a * b * c) :
-                ~exists /\ Create(a, b, c, x, y, z, 10, [q \in 1..(a * b) |-> 0], act)
+                ~exists /\ (\E w0 \in {0, 2, 4} : Create(a, b, c, x, y, z, 10, [q \in 1..(a * b) |-> 0], act, [q \in 1..(a + 1) |-> IF q = 1 THEN w0 ELSE 2]))
 MReset == \E act \in Masks(NC) : ResetActnum(act)
 MResetAll == ResetAllActive
 MNext == MCreate \/ MReset \/ MResetAll
